@@ -128,12 +128,10 @@ def add (a b : Json) : Except Err Json :=
     -- per-type code runs on the cleared value
     | .none, .null => .ok .null
     | .none, .num q =>
+      -- the cleared value holds the int 0
       (match primAdd ⟨.i32, 0, []⟩ q with
        | some r => .ok (.num r)
-       | Option.none =>
-         -- float x: `0 + x` is x, except that -0.0 becomes +0.0
-         let v := if (q.ty = .f32 && q.val = 2147483648) || (q.ty = .f64 && q.val = 9223372036854775808) then 0 else q.val
-         .ok (.num ⟨q.ty, v, []⟩))
+       | Option.none => .error .typeNotSet)
     | .none, .str s => .ok (.str s)
     | .none, .arr xs => .ok (.arr [.arr xs])
     | .none, .obj kvs => .ok (.obj (mergeObj [] kvs))
@@ -142,7 +140,7 @@ def add (a b : Json) : Except Err Json :=
     | .num p, .num q =>
       (match primAdd p q with
        | some r => .ok (.num r)
-       | Option.none => .error .typeNotSet)                   -- float sums: not modelled, never driven
+       | Option.none => .error .typeNotSet)
     | .str s, .str t => .ok (.str (s ++ t))
     | .obj akvs, .obj bkvs => .ok (.obj (mergeObj akvs bkvs))
     | _, _ => .error .addTypes
